@@ -144,7 +144,7 @@ def run_config(cfg, res):
           check(nm, [(k, v)], False)
   else:
     r = gen.rng(cfg['seed'], 'C18', cfg['shard'])
-    ncases = 1500 if cfg['tier'] == 'quick' else 6000
+    ncases = 3000 if cfg['tier'] == 'quick' else 60000
     easy = ['a', 'b', '.', 'ab', 'a.b', 'name', 'c', 'd', 'k1', 'k2', 'v', 'x.y', 'a b', 'é', '1']
     for i in range(ncases):
       hostile = r.random() < 0.5
